@@ -9,7 +9,7 @@ COQ_MODULE = 'Desper.Tree.C16Model'
 CASE_TYPE = 'C16_case'
 VERDICT = 'C16_verdict'
 PROPS_FILE = 'theories/Props/C16.v'
-THEOREM = 'C16_population_mirrors_tree_noclash'
+THEOREM = 'C16_population_mirrors_tree'
 RULE = ('1-3 populations of one ResourceMap from real temporary directory trees (depth <= 4, '
         'file names with 0-2 dots, directory names with and without a dot, empty '
         'directories), each with 1-3 rules (rule directory existing, nested in another '
